@@ -1,5 +1,5 @@
 SPECIFICATION Spec
-CONSTANTS ThreadsC = {0, 8}  NLpC = 2  OwnerOf <- D1_Owner  InitEv <- D1_Init  Trans <- D1_Trans  MaxMsg = 16  CkptEvery = 2  MaxGvt = 0
+CONSTANTS ThreadsC = {0, 8}  NLpC = 2  OwnerOf <- D1_Owner  InitEv <- D1_Init  Trans <- D1_Trans  MaxMsg = 16  CkptEvery = 2  MaxGvt = 0  RecordSched = FALSE
 INVARIANT NoCheckFails
 INVARIANT PoolSufficient
 INVARIANT C01_FinalEqualsSequential
